@@ -99,7 +99,20 @@ func c04SplitType(t *rapid.T, td *TypeDecl, plan *c04Plan) []*TypeDecl {
 			out = append(out, p)
 		}
 	}
-	out[rapid.IntRange(0, len(out)-1).Draw(t, "metapart")].Meta = td.Meta
+	// the type's tags, attributes and annotations ride on the declarations: all on one, or each kind on a
+	// declaration of its own choice (all tags stay together: their order in the model is walk order)
+	if rapid.Bool().Draw(t, "metatogether") {
+		out[rapid.IntRange(0, len(out)-1).Draw(t, "metapart")].Meta = td.Meta
+	} else {
+		out[rapid.IntRange(0, len(out)-1).Draw(t, "tagpart")].Meta.Tags = td.Meta.Tags
+		ap := out[rapid.IntRange(0, len(out)-1).Draw(t, "attrpart")]
+		ap.Meta.Attrs = td.Meta.Attrs
+		np := out[rapid.IntRange(0, len(out)-1).Draw(t, "annopart")]
+		np.Meta.Annos = td.Meta.Annos
+		if len(td.Meta.Tags) > 0 && len(td.Meta.Attrs)+len(td.Meta.Annos) > 0 {
+			plan.classes["type_tags_and_attributes_on_different_declarations"] = true
+		}
+	}
 	if !plan.noPlaceholder && rapid.IntRange(0, 3).Draw(t, "placeholderpart") == 0 {
 		// one more declaration of the type that has no body ('!type T: ...'), before, between or after the others
 		ph := &TypeDecl{Kind: td.Kind, Name: td.Name}
